@@ -34,19 +34,27 @@ RULE = (
     '(H,X,T,S,SX,RZ,RY,U3 / CX,CZ,SWAP,CP,RZZ / CCX,CCP / RC3X; qutrit: '
     'H,Shift,Clock,U8 / CSUM,SWAP / CC-Shift) with barriers, measurements, '
     'resets and pre-folded CircuitGate blocks: (a) op-by-op drawn circuits of '
-    '<= 40 ops, (b) seeded expansions of up to 300 ops (uniform or windowed '
+    '<= 40 ops, (b) seeded expansions of 20-300 ops (uniform or windowed '
     'locations; the op list is explicit in the case and a shorter length is a '
     'prefix), (c) vt.gen.specs rich circuits (mixed radix, wrappers, constant '
-    'unitaries, nested blocks) of <= 5 qudits; block size 2-6; partitioner '
-    'drawn from Quick (weight 5), Scan, Clustering (np.random seeded from the '
-    'case), Greedy, GroupSingleQuditGate, Quick+ExtendBlockSize, GTQCP and '
-    'TDAG (PassData carrying a MachineModel with remote edges). Arms that '
-    'document "no gate wider than the block" (Scan, Clustering, GTQCP, TDAG) '
-    'draw none; a separate family feeds them one and accepts only the '
-    'documented exception type. Non-trivial: >= 3 blocks in the output and '
-    '>= 1 block with >= 2 operations. Distinct = sha1 of the JSON case. '
+    'unitaries, nested blocks) of <= 5 qudits, (d) nine fixed minimal '
+    'reproducers of the confirmed findings, once per shard; block size 2-6; '
+    'partitioner drawn from Quick (weight 5), Scan, Clustering (np.random '
+    'seeded from the case), Greedy, GroupSingleQuditGate, Quick followed by '
+    'ExtendBlockSize (each stage judged on its own), GTQCP and TDAG (PassData '
+    'carrying a MachineModel with remote edges). Arms that document "no gate '
+    'wider than the block" (Scan, Clustering, GTQCP, TDAG) draw no operation '
+    'wider than the block; a separate family feeds them one and accepts only '
+    'the documented exception type (or a correct partition). Restrictions: '
+    'no 7/8-qutrit circuits (PassData allocates a dim^2 identity); the '
+    'surround-based arms (Greedy, Clustering) get <= 80 ops at block size 4 '
+    'and <= 25 at 5-6. For every open known finding the arm concerned draws '
+    'no trigger (counted as excluded). Non-trivial: >= 3 blocks in the '
+    'output and >= 1 block with >= 2 operations (rejection family: the '
+    'documented exception was raised). Distinct = sha1 of the JSON case. '
     'Redundant numeric check for total dimension <= 1024: unitary when '
-    'ops*dim^2 <= 2e6 else 3 seeded random states, max-abs tolerance 1e-9.'
+    'ops*dim^2 <= 2e6 else 3 seeded random states, max-abs tolerance 1e-9. '
+    'A pass run that uses more than 120 s of CPU time is a violation.'
 )
 ASSUMPTIONS = [
     'Circuit.append_gate / point indexing (circuit[cycle, qudit], '
@@ -56,9 +64,11 @@ ASSUMPTIONS = [
     'equality is never used: blocks are always compared fully flattened)',
     'per-qudit projections determine the program (dependence = shares a qudit)',
     'gate matrices come from the gate itself (C18); numpy tensordot is correct',
+    'the passes under test do not read PassData.target (the PassData is built '
+    'from a same-shaped placeholder circuit to keep the target lazy)',
 ]
 SHARDS = {'quick': 16, 'thorough': 16}
-BUDGET_S = {'quick': 150, 'thorough': 2400}
+BUDGET_S = {'quick': 170, 'thorough': 2400}
 
 TOL = 1e-9
 CPU_LIMIT_S = 120.0   # per pass run; the slowest legitimate case is ~5 s
